@@ -35,6 +35,10 @@ def gen_cases(rng, ctx):
     add(1, [[1, 0], [2, 0, 100, 300], [4], [5], [8, 0], [3, 0], [4]], "corpus:direction-and-export")
     add(0, [[8, 0], [8, 1], [8, 2]], "corpus:metrics-listener-without-http1")
     add(1, [[1, 1], [2, 0, 50, 1000], [2, 0, 8, 1], [4], [6, 0], [4], [7, 0], [4], [3, 0], [4], [5]], "corpus:h2-tunnels")
+    # datagram counters: the real UDP multiplexer, an echo peer, a client side that refuses every k-th reply
+    for k, n, ln in ([(0, 5, 100), (2, 6, 300), (3, 7, 1200), (1, 4, 50), (4, 9, 1)] + ([(rng.below(5), rng.range(1, 12), rng.choice([1, 64, 1400])) for _ in range(12)] if thorough else [])):
+        l = line("c16_udp", [[k, n, ln]])
+        cases.append(Case(l, l, kind="datagrams:drop-every-%d" % k, nontrivial=k != 0, meta={"udp": True, "k": k, "n": n, "len": ln}))
     for i in range(60 if thorough else 16):
         ops = []
         sessions = []      # (index, proto, closed, used_h1)
@@ -94,6 +98,22 @@ def known_finding(case, kind, msg, known):
 def judge(case, impl, model, spec, ctx):
     if impl == "999":
         return [("violation", "the metrics harness panicked")]
+    if case.meta.get("udp"):
+        if impl == "996":
+            ctx.setdefault("skipped_env", []).append(case.kind)
+            return []
+        up, down, peer_got, client_got = untok(impl.split()[0])
+        m = case.meta
+        what = "%d datagrams of %d bytes echoed by the peer, the client side refusing every %s reply" % (m["n"], m["len"], "%d-th" % m["k"] if m["k"] else "no")
+        if peer_got != m["n"] * m["len"]:
+            return [("disagree", "%s: the peer received %d bytes" % (what, peer_got))]
+        if up != peer_got:
+            return [("violation", "%s: %d bytes reported for the client-to-peer direction, %d bytes were relayed to the peer" % (what, up, peer_got))]
+        if down != client_got:
+            return [("violation", "%s: %d bytes reported for the peer-to-client direction, %d bytes were relayed to the client" % (what, down, client_got))]
+        if model is not None and impl != model:
+            return [("disagree", "%s: %s vs model %s" % (what, impl, model))]
+        return []
     io = [untok(t) for t in impl.split()]
     mo = [untok(t) for t in model.split()] if model else []
     out = []
